@@ -261,7 +261,14 @@ def check(case):
             # the count-based estimates walk through tied PSMs in an arbitrary order, so their value for a tie group
             # legitimately depends on the input order; alignment is then judged by monotonicity / tie equality only
             break
-        v2 = np.asarray(guarded(f, scores[perm].copy(), targets[perm].copy(), allowed=ALLOWED, sig=algo), dtype=float)
+        if name == "random" and case["perm"] % 2 == 0:
+            # a caller that re-uses its buffers: the same array objects were handed over before, with other content
+            buf_s, buf_t = scores.copy(), targets.copy()
+            guarded(f, buf_s, buf_t, allowed=ALLOWED, sig=algo)
+            buf_s[:], buf_t[:] = scores[perm], targets[perm]
+            v2 = np.asarray(guarded(f, buf_s, buf_t, allowed=ALLOWED, sig=algo), dtype=float)
+        else:
+            v2 = np.asarray(guarded(f, scores[perm].copy(), targets[perm].copy(), allowed=ALLOWED, sig=algo), dtype=float)
         v2 = np.where(np.isinf(v2), 1e300, v2)
         # the NNLS-based estimators amplify 1e-16 summation differences of their (order-dependent) inputs up to ~1e-4;
         # a PSM carrying another PSM's value differs by orders of magnitude more
@@ -331,6 +338,8 @@ def check(case):
                 f"qvality: {int((diff > 1e-9).sum())} PSMs carry a PEP that triqler assigned to another score (max diff {diff.max():.3g})")
         counters["triqler_compared"] = n
     classes = [algo, case["law"]]
+    if case["perm"] % 2 == 0 and not (algo in Q_ALGOS and has_ties):
+        classes.append("argument-arrays-reused-with-other-content")
     if case["round"] is not None:
         classes.append("ties")
     if infinite:
